@@ -71,6 +71,7 @@ func runC15(o *hx.Out, r *hx.Rand, thorough bool) {
 	}
 	names := []string{"a.A", "a.B", "b.A", "A", "a.a", "pkg.sub.Svc", "a.A ", ""}
 	mnames := []string{"M", "N", "Get", "get", "Put", "S1", "S2"}
+	hangs := 0
 	nh := 150
 	if thorough {
 		nh = 400
@@ -320,6 +321,12 @@ func runC15(o *hx.Out, r *hx.Rand, thorough bool) {
 				}
 			}
 			if hung {
+				hangs++
+				if hangs >= 3 {
+					o.Stats["stopped_after_hangs"] = hangs
+					o.Shard = 120
+					return // every further history on this carrier would wait 3s as well
+				}
 				continue
 			}
 			// reference: a standard gRPC server given the successful registrations
